@@ -153,7 +153,11 @@ def run(family, tier, seed, prop, only=None, id_regex=None):
                 # goal atom to `true`; the residual query still goes to the solver, which must answer
                 # unsat. "syntactic": both computations produced the very same hash-consed term (says
                 # little); "normal-form": different terms, equal as polynomials over GF(p).
-                ans, dt, raw = common.run_solver(open(os.path.join(outdir, m["smt"])).read(), common.Z3_NEW, 20)
+                text = open(os.path.join(outdir, m["smt"])).read()
+                for cap in (20, 60, 180):  # a timeout on a trivially false query is machine load: retry
+                    ans, dt, raw = common.run_solver(text, common.Z3_NEW, cap)
+                    if ans not in ("timeout", "error"):
+                        break
                 solver, note = "z3-5.1.0", "z3-5.1.0:" + ans
                 if ans != "unsat":
                     return common.ob(m["id"], verdict="inconclusive", seconds=dt, solver=solver,
@@ -167,6 +171,10 @@ def run(family, tier, seed, prop, only=None, id_regex=None):
             # z3 5.1 and cvc5 side by side (first decisive answer; the other gets a few seconds to
             # contradict it).
             ans, dt, raw, solver, note = common.run_portfolio(open(path).read(), timeout_s)
+            if ans in ("timeout", "error") and os.getloadavg()[0] > 2 * common.ncpu():
+                # heavily loaded machine: one more attempt with a longer cap before giving up on L
+                ans, dt2, raw, solver, note = common.run_portfolio(open(path).read(), 4 * timeout_s)
+                dt += dt2
             queries = 1
             rendering = "L"
             notes = ["L[" + note + "]"]
